@@ -73,3 +73,63 @@ func init() {
 		mutant{Name: "use-adopts-caller-map", Prop: "C08", File: "interp/use.go", Old: "\t\t\tinterp.binPkg[importPath] = make(map[string]reflect.Value)\n", New: "\t\t\tinterp.binPkg[importPath] = v\n", Rule: "R08.4", Key: "Use/binPkg-store"},
 	)
 }
+
+func init() {
+	const aliasTable = "\nfunc matchOS(ctx *build.Context, goos string) bool {\n\treturn goos == ctx.GOOS || osAlias[goos] == ctx.GOOS\n}\n\nvar osAlias = map[string]string{\n\t\"android\": \"linux\",\n\t\"illumos\": \"solaris\",\n\t\"ios\":     \"darwin\",\n}\n\nvar knownOs = map[string]bool{"
+	const aliasTableOK = "\nfunc matchOS(ctx *build.Context, goos string) bool {\n\treturn goos == ctx.GOOS || osAlias[ctx.GOOS] == goos\n}\n\nvar osAlias = map[string]string{\n\t\"android\": \"linux\",\n\t\"illumos\": \"solaris\",\n\t\"ios\":     \"darwin\",\n}\n\nvar knownOs = map[string]bool{"
+	addMutants(
+		mutant{Name: "os-alias-wrong-direction", Prop: "C17", File: "interp/build.go", Old: "\t\tcase x == ctx.GOOS:\n", New: "\t\tcase matchOS(ctx, x):\n",
+			More: [][2]string{{"knownOs[x] && x != ctx.GOOS ||", "knownOs[x] && !matchOS(ctx, x) ||"}, {"\nvar knownOs = map[string]bool{", aliasTable}}, Rule: "R17.2", Key: "name-rule/implied/linux=>android"},
+		mutant{Name: "benign-os-alias-right-direction", Prop: "C17", File: "interp/build.go", Old: "\t\tcase x == ctx.GOOS:\n", New: "\t\tcase matchOS(ctx, x):\n",
+			More: [][2]string{{"knownOs[x] && x != ctx.GOOS ||", "knownOs[x] && !matchOS(ctx, x) ||"}, {"\nvar knownOs = map[string]bool{", aliasTableOK}}, Benign: true},
+	)
+}
+
+func init() {
+	addMutants(
+		mutant{Name: "generic-instantiation-error-shadowed", Prop: "C12", File: "interp/cfg.go", Old: "\t\t\t\tvar g *node\n\t\t\t\tvar found bool\n\t\t\t\tg, found, err = genAST(sc, fun, lt)", New: "\t\t\t\tg, found, err := genAST(sc, fun, lt)", Rule: "R12.5", Key: "Interpreter.cfg/shadow:genAST"},
+		mutant{Name: "typeassert-error-shadowed", Prop: "C12", File: "interp/cfg.go", Old: "\t\t\terr = check.typeAssertionExpr(c0, c1.typ)\n\t\t\tif err != nil {\n\t\t\t\tbreak\n\t\t\t}", New: "\t\t\tif err := check.typeAssertionExpr(c0, c1.typ); err != nil {\n\t\t\t\tbreak\n\t\t\t}", Rule: "R12.5", Key: "Interpreter.cfg/shadow:typecheck.typeAssertionExpr"},
+		mutant{Name: "for5-cond-check-dropped", Prop: "C12", File: "interp/cfg.go", Old: "\t\t\tcond, post, body := n.child[0], n.child[1], n.child[2]\n\t\t\tif !isBool(cond.typ) {\n\t\t\t\terr = cond.cfgErrorf(\"non-bool used as for condition\")\n\t\t\t}\n", New: "\t\t\tcond, post, body := n.child[0], n.child[1], n.child[2]\n", Rule: "R12.5", Key: "cfg/case:forStmt5/cond-is-bool"},
+	)
+}
+
+func init() {
+	addMutants(
+		mutant{Name: "wrapper-id-hoisted", Prop: "C10", File: "interp/run.go", Old: "\treturn func(f *frame) reflect.Value {\n\t\tv := value(f)\n\t\tif !isDefer && v.Kind() == reflect.Func {", New: "\treturn func(f *frame) reflect.Value {\n\t\tid := f.runid()\n\t\tv := value(f)\n\t\tif !isDefer && v.Kind() == reflect.Func {",
+			More: [][2]string{{"fr := newFrame(f, len(def.types), f.runid())", "fr := newFrame(f, len(def.types), id)"}}, Rule: "R10.2", Key: "genFunctionWrapper/makefunc-frame-id:captured-id-value:id"},
+		mutant{Name: "refresh-moved-to-conditional-helper", Prop: "C10", File: "interp/program.go", Old: "\tinterp.frame.setrunid(interp.runid())\n", New: "",
+			Rule: "R10.1", Key: "Interpreter.Execute/refresh"},
+	)
+}
+
+func init() {
+	addMutants(
+		mutant{Name: "benign-refresh-in-unconditional-helper", Prop: "C10", File: "interp/program.go", Old: "\tinterp.frame.setrunid(interp.runid())\n\tinterp.frame.mutex.Lock()\n\tinterp.resizeFrame()", New: "\tinterp.frame.mutex.Lock()\n\tinterp.resizeFrame()",
+			Also: [][3]string{{"interp/interp.go", "func (interp *Interpreter) resizeFrame() {\n", "func (interp *Interpreter) resizeFrame() {\n\tinterp.frame.setrunid(interp.runid())\n"}}, Benign: true},
+		mutant{Name: "refresh-in-helper-after-early-return", Prop: "C10", File: "interp/program.go", Old: "\tinterp.frame.setrunid(interp.runid())\n\tinterp.frame.mutex.Lock()\n\tinterp.resizeFrame()", New: "\tinterp.frame.mutex.Lock()\n\tinterp.resizeFrame()",
+			Also: [][3]string{{"interp/interp.go", "\tinterp.frame.data = data\n}", "\tinterp.frame.data = data\n\tinterp.frame.setrunid(interp.runid())\n}"}}, Rule: "R10.1", Key: "Interpreter.Execute/refresh"},
+	)
+}
+
+func init() {
+	addMutants(
+		// ---- C13
+		mutant{Name: "osexit-real-bound", Prop: "C13", File: "stdlib/go1_22_os.go", Old: "reflect.ValueOf(osExit)", New: "reflect.ValueOf(os.Exit)", Rule: "R13.2", Key: "os.Exit/replaced"},
+		mutant{Name: "logfatal-replacement-exits", Prop: "C13", File: "stdlib/restricted.go", Old: "func logFatalf(f string, v ...interface{}) { log.Panicf(f, v...) }", New: "func logFatalf(f string, v ...interface{}) { log.Fatalf(f, v...) }", Rule: "R13.2", Key: "logFatalf/cannot-exit"},
+		mutant{Name: "getenv-reads-host", Prop: "C13", File: "interp/use.go", Old: "getenv := func(key string) string { return interp.env[key] }", New: "getenv := func(key string) string {\n\t\t\t\tif v, ok := interp.env[key]; ok {\n\t\t\t\t\treturn v\n\t\t\t\t}\n\t\t\t\treturn os.Getenv(key)\n\t\t\t}", Rule: "R13.4", Key: "os.Getenv"},
+		mutant{Name: "setenv-override-dropped", Prop: "C13", File: "interp/use.go", Old: "\t\t\tp[\"Setenv\"] = reflect.ValueOf(func(key, value string) error { interp.env[key] = value; return nil })\n", New: "", Rule: "R13.4", Key: "os.Setenv"},
+		mutant{Name: "println-to-host-stdout", Prop: "C13", File: "interp/use.go", Old: "p[\"Println\"] = reflect.ValueOf(func(a ...interface{}) (n int, err error) { return fmt.Fprintln(stdout, a...) })", New: "p[\"Println\"] = reflect.ValueOf(func(a ...interface{}) (n int, err error) { return fmt.Fprintln(os.Stdout, a...) })", Rule: "R13.5", Key: "fmt.Println/stream"},
+		mutant{Name: "fixstdlib-fatal-rebinds-fatal", Prop: "C13", File: "interp/use.go", Old: "p[\"Fatalf\"] = reflect.ValueOf(l.Panicf)", New: "p[\"Fatalf\"] = reflect.ValueOf(l.Fatalf)", Rule: "R13.2", Key: "fixStdlib/log.Fatalf"},
+		mutant{Name: "logger-embedded", Prop: "C13", File: "stdlib/restricted.go", Old: "type logLogger struct {\n\tl *log.Logger\n}", New: "type logLogger struct {\n\t*log.Logger\n\tl *log.Logger\n}", Rule: "R13.2", Key: "logLogger/opaque"},
+		mutant{Name: "env-seeded-from-host", Prop: "C13", File: "interp/interp.go", Old: "\t\t\t\ti.opt.env[a[0]] = \"\"\n", New: "\t\t\t\ti.opt.env[a[0]] = os.Getenv(a[0])\n", Rule: "R13.4", Key: "New/env-init"},
+		mutant{Name: "cmd-unsafe-always-used", Prop: "C13", File: "cmd/yaegi/run.go", Old: "\tif useUnsafe {\n", New: "\tif useUnsafe || useSyscall {\n", Rule: "R13.1", Key: "cmd/run/Use:unsafe"},
+		// ---- C14
+		mutant{Name: "wrong-function-bound", Prop: "C14", File: "stdlib/go1_22_strings.go", Old: "\"TrimLeft\":       reflect.ValueOf(strings.TrimLeft),", New: "\"TrimLeft\":       reflect.ValueOf(strings.TrimRight),", Rule: "R14.1", Key: "strings/strings/TrimLeft"},
+		mutant{Name: "var-bound-by-value", Prop: "C14", File: "stdlib/go1_22_io.go", Old: "\"EOF\":              reflect.ValueOf(&io.EOF).Elem(),", New: "\"EOF\":              reflect.ValueOf(io.EOF),", Rule: "R14.1", Key: "io/io/EOF"},
+		mutant{Name: "const-literal-off-by-one", Prop: "C14", File: "stdlib/go1_22_io.go", Old: "\"SeekEnd\":          reflect.ValueOf(constant.MakeFromLiteral(\"2\", token.INT, 0)),", New: "\"SeekEnd\":          reflect.ValueOf(constant.MakeFromLiteral(\"1\", token.INT, 0)),", Rule: "R14.1", Key: "io/io/SeekEnd"},
+		mutant{Name: "binding-dropped", Prop: "C14", File: "stdlib/go1_21_io.go", Old: "\t\t\"ReadFull\":         reflect.ValueOf(io.ReadFull),\n", New: "", Rule: "R14.3", Key: "io/io/missing:ReadFull"},
+		mutant{Name: "wrapper-forwards-to-sibling", Prop: "C14", File: "stdlib/go1_22_io.go", Old: "func (W _io_ByteScanner) UnreadByte() error       { return W.WUnreadByte() }", New: "func (W _io_ByteScanner) UnreadByte() error       { _, err := W.WReadByte(); return err }", Rule: "R14.5", Key: "io/io/_ByteScanner"},
+		mutant{Name: "wrapper-args-swapped", Prop: "C14", File: "stdlib/go1_22_sort.go", Old: "func (W _sort_Interface) Less(i int, j int) bool { return W.WLess(i, j) }", New: "func (W _sort_Interface) Less(i int, j int) bool { return W.WLess(j, i) }", Rule: "R14.5", Key: "sort/sort/_Interface"},
+		mutant{Name: "header-selects-two-releases", Prop: "C14", File: "stdlib/go1_21_io.go", Old: "//go:build go1.21 && !go1.22", New: "//go:build go1.21", Rule: "R14.4", Key: "stdlib/go1_21_io.go/header"},
+	)
+}
